@@ -43,6 +43,9 @@ func match(filter CompFilter, comp *ical.Component) (bool, error) {
 	if comp.Name != filter.Name {
 		return filter.IsNotDefined, nil
 	}
+	if filter.IsNotDefined {
+		return false, nil
+	}
 
 	var zeroDate time.Time
 	if filter.Start != zeroDate {
@@ -77,8 +80,13 @@ func match(filter CompFilter, comp *ical.Component) (bool, error) {
 
 func matchCompFilter(filter CompFilter, comp *ical.Component) (bool, error) {
 	var matches []*ical.Component
+	defined := false
 
 	for _, child := range comp.Children {
+		if child.Name != filter.Name {
+			continue
+		}
+		defined = true
 		match, err := match(filter, child)
 		if err != nil {
 			return false, err
@@ -86,10 +94,10 @@ func matchCompFilter(filter CompFilter, comp *ical.Component) (bool, error) {
 			matches = append(matches, child)
 		}
 	}
-	if len(matches) == 0 {
-		return filter.IsNotDefined, nil
+	if filter.IsNotDefined {
+		return !defined, nil
 	}
-	return true, nil
+	return len(matches) > 0, nil
 }
 
 func matchPropFilter(filter PropFilter, comp *ical.Component) (bool, error) {
@@ -97,6 +105,9 @@ func matchPropFilter(filter PropFilter, comp *ical.Component) (bool, error) {
 	field := comp.Props.Get(filter.Name)
 	if field == nil {
 		return filter.IsNotDefined, nil
+	}
+	if filter.IsNotDefined {
+		return false, nil
 	}
 
 	for _, paramFilter := range filter.ParamFilter {
